@@ -259,3 +259,57 @@ example : exGr.isSink 3 = true ∧ exGr.isSink 4 = true ∧ exGr.isSink 1 = fals
 
 end Uberjob.Greedy
 
+/-! ## known findings F7 / F8: what the model's assumption "the pool's start-up completes" hides -/
+namespace Uberjob.Engine
+
+/-- The start-up of the pool is ABORTED after some of the workers were started - a KeyboardInterrupt reaching the calling thread
+    there (F7), or `Thread.start` raising (F8): control goes to `worker_pool`'s `finally`, which joins the workers started so far,
+    WITHOUT passing through the coordinator block whose `finally` sets `stop` and queues the sentinels.  (Not a step of the engine
+    model: the theorems above assume that the pool's start-up completes.) -/
+def abortStartup (s : St) : Option St :=
+  match s.coord with
+  | .spawning _ => some { s with coord := .joining true }
+  | _ => none
+
+/-- one node, no edges -/
+def single : Graph := Graph.ofEdges [0] []
+
+/-- one worker started, the start-up aborted, the worker takes the only node, runs it, finishes it -/
+def stuckAfterAbort : Option St :=
+  ((step? single ⟨2, some 0⟩ (init single) .spawn).bind abortStartup).bind
+    (fun s => run? single ⟨2, some 0⟩ s [.get 0 (.node 0), .check 0, .finOk 0, .taskDone 0])
+
+def stuckState : St := stuckAfterAbort.getD (init single)
+
+theorem stuck_reached : stuckAfterAbort.isSome = true := by decide
+theorem stuck_ws : stuckState.ws = [W.idle] := by decide
+theorem stuck_queue : stuckState.queue = [] := by decide
+theorem stuck_coord : stuckState.coord = .joining true := by decide
+theorem stuck_okd : stuckState.okd = [0] := by decide
+
+/-- **F7 / F8 in the model: an aborted start-up never returns.**  With the abort step added there is a reachable state - the
+    worker that was started has finished all the work (`okd = [0]`) and waits for an item, the calling thread waits for that worker -
+    in which NOTHING is enabled and `run_function_on_graph` has not returned: the negation of `C07_no_deadlock` for the extended
+    system.  The probes `harness/probes/ki_during_spawn.py` and `harness/probes/thread_start_failure.py` replay it on the real code
+    (known findings F7, F8). -/
+theorem C07_startup_abort_hangs_witness :
+    stuckAfterAbort.isSome = true ∧ stuckState.okd = [0] ∧ stuckState.coord = .joining true ∧ abortStartup stuckState = none ∧
+    ∀ l, step? single ⟨2, some 0⟩ stuckState l = none := by
+  refine ⟨stuck_reached, stuck_okd, stuck_coord, by simp [abortStartup, stuck_coord], ?_⟩
+  intro l
+  cases l with
+  | get w i =>
+    simp only [step?, stuck_ws, stuck_queue]
+    cases w <;> simp
+  | check w => simp only [step?, stuck_ws]; cases w <;> simp
+  | finOk w => simp only [step?, stuck_ws]; cases w <;> simp
+  | finFail w => simp only [step?, stuck_ws]; cases w <;> simp
+  | release w y => simp only [step?, stuck_ws]; cases w <;> simp
+  | taskDone w => simp only [step?, stuck_ws]; cases w <;> simp
+  | spawn => simp [step?, stuck_coord]
+  | joinReturn => simp [step?, stuck_coord]
+  | interrupt => simp [step?, stuck_coord]
+  | setStop => simp [step?, stuck_coord]
+  | putDone => simp [step?, stuck_coord]
+  | joined => simp [step?, stuck_coord, stuck_ws]
+end Uberjob.Engine
